@@ -492,6 +492,9 @@ def c15(ctx):
         run_harness_on(ctx, "h_prng.c", [b for b in builds if b["tag"] not in ("prod-cmake-Release", "asan-gcc")], ["--mode", "model", "--p1", NH // 5, "--p2", NR // 5], 16, timeout=3000)
     else:
         run_harness_on(ctx, "h_prng.c", builds, ["--mode", "model", "--p1", NH, "--p2", NR], 16, timeout=3000)
+    if ctx.thorough:
+        # one generate call of 2^32+7 bytes against 4096 one-MiB calls from an identically seeded object (about ten minutes)
+        run_harness_on(ctx, "h_prng.c", builds[:1], ["--mode", "hugegen"], 1, timeout=5000, hname="h_prng-hugegen")
     # 1 MiB streams at the maximum reseed limit (carry out of the low word of V + H + C + counter needs a large counter)
     run_harness_on(ctx, "h_prng.c", builds[:1], ["--mode", "model", "--p1", 0, "--p2", 0, "--p3", ctx.q(32, 480)], 16, timeout=3000, hname="h_prng-long")
     abi.ilp32_monitor(ctx, ['prng'])
@@ -500,7 +503,7 @@ def c15(ctx):
                 "customisation NULL/0, 5, 64..163, <64 bytes, scripted deliveries (every third history includes short and zero deliveries). A shadow "
                 "Hash_DRBG over the model hash predicts every output byte AND every entropy request (count, size, byte offset inside the call); first "
                 "divergence is reported with the op index. Long streams: 32 (thorough 480) streams of 1 MiB at the maximum limit (reseed counter up to 32768), "
-                "every block compared with the shadow. Relational: different initial seeds + identical feed/reseed material => different streams. "
+                "every block compared with the shadow; thorough: ONE generate call of 2^32+7 bytes equals the stream of 4096 one-MiB calls from an identically seeded object, 4096 entropy requests. Relational: different initial seeds + identical feed/reseed material => different streams. "
                 "class = history index (all histories distinct by construction).")
     ctx.rule += ' Supplementary ILP32 monitor: the portable sources compiled with gcc/clang -m32 (4-byte size_t, pointers and long; freestanding runtime, every buffer against a PROT_NONE page) and the production archive run the same deterministic case list (harness/h_abi.c, section prng) as the model; the outputs are compared line by line.'
     ctx.exhaustive = False
